@@ -15,7 +15,7 @@ HUGE64 = 1 << 53  # beyond this float64 cannot represent every integer
 
 def gen_instance(rng, *, max_jobs=4, max_machines=4, max_ops=4, flexible=None,
                  zero=None, regular=None, recirc=None, positive=None,
-                 classic=None, degenerate=True, min_jobs=1, max_dur=9, huge=0.0, sparse_ids=0.0, large=0.0, recycled=0.02):
+                 classic=None, degenerate=True, min_jobs=1, max_dur=9, huge=0.0, sparse_ids=0.0, large=0.0, recycled=0.02, huge64=True):
     """Draws an instance spec.  Every ``None`` switch is drawn per call.
     `large`: probability of a 6-10 jobs x up to 8 machines x up to 10 operations instance (scale effects).
     `sparse_ids`: probability of machine ids with gaps (unused machines, large maximum id).
@@ -39,7 +39,7 @@ def gen_instance(rng, *, max_jobs=4, max_machines=4, max_ops=4, flexible=None,
     if huge and rng.random() < huge:
         k = 0
         # a quarter of them in the 2**53 range (nanosecond-like units): a float64 detour loses integers there
-        base = HUGE64 if rng.random() < 0.25 else HUGE
+        base = HUGE64 if rng.random() < 0.25 and huge64 else HUGE
         for job in spec["jobs"]:
             for op in job:
                 # keep zero durations zero; lift one or two operations per instance into the 2**24 range, +-3
